@@ -19,6 +19,7 @@ use sciparse::{
     core::{convert::ToModel, model::Model},
     dataplane_path::{
         model::DpPath,
+        onehop::model::OneHopPath,
         standard::{
             model::StandardPath,
             types::{HopFieldFlags, InfoFieldFlags},
@@ -218,6 +219,25 @@ fn path_tokens(p: &StandardPath) -> String {
     s
 }
 
+fn hop_tokens(h: &sciparse::dataplane_path::standard::model::HopField) -> String {
+    let m = h.mac.0.iter().fold(0u64, |a, b| a * 256 + *b as u64);
+    format!(" {} {} {} {} {} {}", h.flags.contains(HopFieldFlags::CONS_INGRESS_ROUTER_ALERT) as u8, h.flags.contains(HopFieldFlags::CONS_EGRESS_ROUTER_ALERT) as u8, h.expiration_units, h.cons_ingress, h.cons_egress, m)
+}
+
+/// `std <path>` | `ohp <info> <hop0> <hop1>` | `empty` | `unsupported`
+fn pkt_tokens(pkt: &ScionRawPacketView) -> String {
+    match pkt.header().path() {
+        ScionDpPathViewRef::Standard(v) => format!("std {}", path_tokens(&v.to_model())),
+        ScionDpPathViewRef::OneHop(v) => {
+            let m: OneHopPath = v.to_model();
+            let f = m.info.flags;
+            format!("ohp {} {} {} {}{}{}", f.contains(InfoFieldFlags::CONS_DIR) as u8, f.contains(InfoFieldFlags::PEERING) as u8, m.info.segment_id, m.info.timestamp, hop_tokens(&m.hops[0]), hop_tokens(&m.hops[1]))
+        }
+        ScionDpPathViewRef::Empty => "empty".into(),
+        _ => "unsupported".into(),
+    }
+}
+
 fn std_path_of(pkt: &ScionRawPacketView) -> Option<StandardPath> {
     match pkt.header().path() {
         ScionDpPathViewRef::Standard(v) => Some(v.to_model()),
@@ -279,6 +299,8 @@ struct Case {
     src: IsdAsn,
     dst: IsdAsn,
     path: StandardPath,
+    /// non-standard path kind (one-hop / empty) overriding `path`
+    dp: Option<DpPath>,
     now: u32,
     ignore_macs: bool,
     /// for C01: must be delivered at dst
@@ -289,7 +311,7 @@ struct Case {
 fn mk_packet(c: &Case) -> Option<Box<ScionRawPacketView>> {
     let src = ScionAddr::V4(ScionAddrV4::new(c.src, Ipv4Addr::new(10, 0, 0, 1)));
     let dst = ScionAddr::V4(ScionAddrV4::new(c.dst, Ipv4Addr::new(10, 0, 0, 2)));
-    ScionRawPacket::new(src, dst, DpPath::Standard(c.path.clone()), ProtocolNumber::Other(253), vec![1, 2, 3])
+    ScionRawPacket::new(src, dst, c.dp.clone().unwrap_or_else(|| DpPath::Standard(c.path.clone())), ProtocolNumber::Other(253), vec![1, 2, 3])
         .try_encode_to_owned_view()
         .ok()
 }
@@ -312,7 +334,7 @@ fn real_walk(topo: &ScionTopology, c: &Case) -> Result<WalkObs, String> {
         let mut cur_if = c.ingress_if;
         let mut steps = 0usize;
         loop {
-            let before = std_path_of(&pkt).map(|p| path_tokens(&p)).unwrap_or_default();
+            let before = pkt_tokens(&pkt);
             let out = {
                 let mut it = ScionNetworkSim::iter::<SpecRoutingLogic>(topo, &mut pkt, ScionNetworkTime::from_timestamp_secs(c.now), cur_as, cur_if, c.ignore_macs)
                     .map_err(|e| format!("iter: {e}"))?;
@@ -321,7 +343,7 @@ fn real_walk(topo: &ScionTopology, c: &Case) -> Result<WalkObs, String> {
                 (o, nxt)
             };
             let (o, (nas, nif)) = out;
-            let after = std_path_of(&pkt).map(|p| path_tokens(&p)).unwrap_or_default();
+            let after = pkt_tokens(&pkt);
             match o {
                 None => return Ok((format!("simerror {}", cur_as.to_u64()), steps)),
                 Some(Err(_)) => {
@@ -526,7 +548,7 @@ fn main() {
                         feats.push("noncore-crossover");
                     }
                     feats.push(match m.segments.len() { 1 => "1seg", 2 => "2seg", _ => "3seg" });
-                    honest.push(Case { kind: "honest".into(), start: a.ia, ingress_if: 0, src: a.ia, dst: b.ia, path: m, now: now0 + 10, ignore_macs: false, honest: true, features: feats.clone() });
+                    honest.push(Case { kind: "honest".into(), start: a.ia, ingress_if: 0, src: a.ia, dst: b.ia, path: m, dp: None, now: now0 + 10, ignore_macs: false, honest: true, features: feats.clone() });
                 }
             }
         }
@@ -607,18 +629,55 @@ fn main() {
                     }
                 }
             }
-            cases.push(Case { kind: "adversarial".into(), start, ingress_if, src: h.src, dst, path, now, ignore_macs: ignore, honest: false, features: feats });
+            cases.push(Case { kind: "adversarial".into(), start, ingress_if, src: h.src, dst, path, dp: None, now, ignore_macs: ignore, honest: false, features: feats });
+        }
+        let mut all_extra: Vec<Case> = vec![];
+
+        // one-hop and empty paths (C13 only)
+        if prop != "C01" {
+            let empty_std = StandardPath::new_empty();
+            for l in spec.links.iter().take(args.scale(6, 40)) {
+                let ka = spec.ases.iter().find(|a| a.ia == l.a).unwrap().key;
+                let ts0 = now0;
+                for variant in 0..8 {
+                    let mut feats: Vec<&'static str> = vec!["onehop"];
+                    let mut key = ka;
+                    let mut egress = l.a_if;
+                    let (mut start, mut ing, mut dst) = (l.a, 0u16, l.b);
+                    let mut now = now0 + 10;
+                    let mut post: Box<dyn Fn(&mut OneHopPath)> = Box::new(|_| {});
+                    match variant {
+                        0 => {}
+                        1 => { key[0] ^= 1; feats.push("ohp-bad-mac"); }
+                        2 => { egress = egress.wrapping_add(1000); feats.push("ohp-unknown-egress"); }
+                        3 => { post = Box::new(|o| o.info.flags.remove(InfoFieldFlags::CONS_DIR)); feats.push("ohp-non-consdir"); }
+                        4 => { dst = l.a; feats.push("ohp-dst-is-source"); }
+                        5 => { start = l.b; ing = l.b_if; feats.push("ohp-injected-at-neighbour"); }
+                        6 => { now = now0 + 400_000; feats.push("ohp-expired"); }
+                        _ => { post = Box::new(|o| { o.hops[1].cons_ingress = 77; o.hops[1].mac = sciparse::dataplane_path::standard::types::HopFieldMac([1, 2, 3, 4, 5, 6]); }); feats.push("ohp-prefilled-second-hop"); }
+                    }
+                    let mut o = OneHopPath::new(egress, rng.next() as u16, ts0, key, 63);
+                    post(&mut o);
+                    all_extra.push(Case { kind: "onehop".into(), start, ingress_if: ing, src: l.a, dst, path: empty_std.clone(), dp: Some(DpPath::OneHop(o)), now, ignore_macs: false, honest: false, features: feats });
+                }
+            }
+            for a in spec.ases.iter().take(3) {
+                let other = spec.ases.iter().find(|b| b.ia != a.ia).map(|b| b.ia).unwrap_or(a.ia);
+                all_extra.push(Case { kind: "empty".into(), start: a.ia, ingress_if: 0, src: a.ia, dst: a.ia, path: empty_std.clone(), dp: Some(DpPath::Empty), now: now0, ignore_macs: false, honest: false, features: vec!["empty-path"] });
+                all_extra.push(Case { kind: "empty".into(), start: a.ia, ingress_if: 0, src: a.ia, dst: other, path: empty_std.clone(), dp: Some(DpPath::Empty), now: now0, ignore_macs: false, honest: false, features: vec!["empty-path", "other-dst"] });
+            }
         }
         // link-down variants are run on a copy of the topology
         let mut all: Vec<(Case, Option<usize>)> = honest.into_iter().map(|c| (c, None)).collect();
         all.extend(cases.into_iter().map(|c| (c, None)));
+        all.extend(all_extra.into_iter().map(|c| (c, None)));
         if prop != "C01" && !spec.links.is_empty() {
             let n = all.len().min(args.scale(20, 200));
             for k in 0..n {
                 let li = rng.below(spec.links.len() as u64) as usize;
                 let (c, _) = &all[k];
                 if c.honest {
-                    let mut c2 = Case { kind: "link-down".into(), honest: false, features: c.features.clone(), path: c.path.clone(), ..*c };
+                    let mut c2 = Case { kind: "link-down".into(), honest: false, features: c.features.clone(), path: c.path.clone(), dp: c.dp.clone(), ..*c };
                     c2.features.push("link-down");
                     all.push((c2, Some(li)));
                 }
@@ -648,7 +707,7 @@ fn main() {
                     continue;
                 }
             };
-            let toks = path_tokens(&c.path);
+            let toks = match mk_packet(c) { Some(p) => pkt_tokens(&p), None => path_tokens(&c.path) };
             let canon = format!("{ti}|{}|{}|{}|{}|{}|{toks}|{:?}", c.start.to_u64(), c.ingress_if, c.dst.to_u64(), c.now, c.ignore_macs, down);
             let vclass = obs.verdict.split(' ').next().unwrap_or("").to_string();
             let nontrivial = obs.steps >= 2 || (vclass != "dropped" && vclass != "delivered");
@@ -667,7 +726,7 @@ fn main() {
             if obs.verdict == "unbounded" {
                 rep.spec_fail("C13:unbounded", "walk did not finish within 300 AS steps", json!({"case": toks}));
             }
-            let hops: usize = c.path.segments.iter().map(|s| s.hop_fields.len()).sum();
+            let hops: usize = if c.dp.is_some() { 2 } else { c.path.segments.iter().map(|s| s.hop_fields.len()).sum() };
             if obs.steps > hops + 1 {
                 rep.spec_fail("C13:too-many-steps", &format!("{} AS steps for {} hop fields", obs.steps, hops), json!({"case": toks}));
             }
@@ -677,7 +736,7 @@ fn main() {
                 if act == "anyhow" || before.is_empty() {
                     continue;
                 }
-                let m = lean.ask(&format!("route sim {at} {} {iif} {} {} {before}", c.dst.to_u64(), c.now, c.ignore_macs as u8));
+                let m = lean.ask(&format!("routep sim {at} {} {iif} {} {} {before}", c.dst.to_u64(), c.now, c.ignore_macs as u8));
                 let i = format!("{act} ; {after}");
                 if lean.differs(&m, &i) {
                     rep.disagree("route-step", json!({"case": case_json, "step": k, "as": at, "ingress_if": iif}), &i, &m);
@@ -685,17 +744,19 @@ fn main() {
                 }
             }
             let hdr = format!("{} {} {} {} {}", c.start.to_u64(), c.ingress_if, c.dst.to_u64(), c.now, c.ignore_macs as u8);
-            let msim = lean.ask(&format!("walk sim {hdr} {toks}"));
+            let msim = lean.ask(&format!("walkp sim {hdr} {toks}"));
             let impl_walk = format!("{} steps {}", obs.verdict, obs.steps);
             if lean.differs(&msim, &impl_walk) && !obs.verdict.starts_with("panic") {
                 rep.disagree("walk", case_json.clone(), &impl_walk, &msim);
             }
             // spec oracle 1 (C13): verdict of the reference router
             if lean.enabled {
-                let mref = lean.ask(&format!("walk ref {hdr} {toks}"));
+                let mref = lean.ask(&format!("walkp ref {hdr} {toks}"));
                 let ref_verdict = mref.split(" steps ").next().unwrap_or("").to_string();
                 if ref_verdict != obs.verdict && prop != "C01" {
-                    let class = if c.path.segments.iter().any(|s| s.info_field.flags.contains(InfoFieldFlags::PEERING)) {
+                    let class = if matches!(c.dp, Some(DpPath::OneHop(_))) {
+                        "onehop-unchecked"
+                    } else if c.path.segments.iter().any(|s| s.info_field.flags.contains(InfoFieldFlags::PEERING)) {
                         "peering"
                     } else if ref_verdict.contains("pp_cons_") && !obs.verdict.contains("pp_cons_") {
                         "segment-origin-hop-accepted-from-link"
@@ -726,7 +787,7 @@ fn main() {
                                 Ok(()) => {
                                     let mut f2 = c.features.clone();
                                     f2.push("reversed");
-                                    queue.push_back((Case { kind: "honest-reverse".into(), start: c.dst, ingress_if: 0, src: c.dst, dst: c.src, path: fp, now: c.now, ignore_macs: false, honest: true, features: f2 }, None));
+                                    queue.push_back((Case { kind: "honest-reverse".into(), start: c.dst, ingress_if: 0, src: c.dst, dst: c.src, path: fp, dp: None, now: c.now, ignore_macs: false, honest: true, features: f2 }, None));
                                 }
                                 Err(_) => rep.spec_fail("C01:reverse-failed", "try_reverse failed on a delivered offered path", case_json.clone()),
                             }
